@@ -480,4 +480,14 @@ SniffParse(doc, dt, rt) == SniffParseWith(doc, dt, rt, FALSE)
 
 \* "no string value ever puts a raw newline into notation output"
 NoRawNewline(b) == \A k \in 1..Len(b) : b[k] # 10
+\* The same law on documents too long to be held as a TLC sequence (strings of thousands of bytes): the output is
+\* carried in run-length form << <<byte, count>>, ... >> (lossless; long values are generated as long runs).
+NoRawNewlineRL(rl) == \A k \in 1..Len(rl) : rl[k][2] > 0 => rl[k][1] # 10
+RECURSIVE LenRL(_)
+LenRL(rl) == IF Len(rl) = 0 THEN 0 ELSE rl[1][2] + LenRL(Tail(rl))
+RECURSIVE RunAt(_, _)
+RunAt(b, i) == IF i < Len(b) /\ b[i + 1] = b[i] THEN 1 + RunAt(b, i + 1) ELSE 1
+RECURSIVE ToRLFrom(_, _)
+ToRLFrom(b, i) == IF i > Len(b) THEN <<>> ELSE LET n == RunAt(b, i) IN <<<<b[i], n>>>> \o ToRLFrom(b, i + n)
+ToRL(b) == ToRLFrom(b, 1)
 =============================================================================
